@@ -588,6 +588,23 @@ def run(chk):
     if chk.replay_path:
         return replay(chk)
     rng = random.Random(chk.seed)
+    # Apalache (symbolic, beside everything else, one core each): ScpWindowInd.IndInv - TypeOK, WindowBound, TriesBound,
+    # AtMostOnce, SeqUnique, OneEntryPerCommand, the accounting conjuncts, ReturnedComplete, TimeoutHonest - is an
+    # INDUCTIVE invariant of the windowed client for unbounded Window, MaxTries, SeqMod, time-outs, clock and any number
+    # of calls, against a network that may present a reply with ANY sequence number at any moment (only the number of
+    # commands per call is bounded, by 4); the states a call starts in satisfy it; wrong clients are refuted.
+    from concurrent.futures import ThreadPoolExecutor
+    apool = ThreadPoolExecutor(4)
+    apa = [apool.submit(chk.apalache, "ScpWindowInd", "IndInit", "Next", "IndInv", 1, cinit="ConstInit", timeout=1500,
+                        label="inductive step: IndInv /\\ Next => IndInv' (unbounded window, tries, sequence space, clock)"),
+           apool.submit(chk.apalache, "ScpWindowInd", "StartInit", "Next", "IndInv", 0, cinit="ConstInit", timeout=1500,
+                        label="base case: the state every call starts in satisfies IndInv")]
+    for wrong, what in (("WrongWindowNext", "window test <= for <"), ("WrongTriesNext", "one transmission too many"),
+                        ("WrongPopNext", "ok reply matched by command instead of sequence number"),
+                        ("WrongCountNext", "retransmission not counted in the table"),
+                        ("WrongSeqNext", "a number still held by an unanswered command is issued again"))[:chk.pick(2, 5)]:
+        apa.append(apool.submit(chk.apalache, "ScpWindowInd", "IndInit", wrong, "IndInv", 1, cinit="ConstInit",
+                                expect="Error", timeout=1500, label="refuted: " + what))
     acts = ("SendNew", "RunCallback", "Recv", "Duplicate", "DropReply", "Retransmit", "RaiseTimeout", "Return",
             "NextBurst", "Tick")
     chk.design("ScpDesign", "ScpDesign_%s.cfg" % chk.tier, expect_actions=acts,
@@ -704,6 +721,13 @@ def run(chk):
                 "distinct (connection parameters, calls, applied schedule, overshoots)")
     chk.exhaustive = False
     chk.extra["exhaustive_subdomain"] = domains
+    for f in apa:
+        f.result()                      # an unexpected outcome is a machinery error (raised here)
+    chk.extra["apalache_inductive_invariant"] = (
+        "ScpWindowInd.IndInv is inductive for ScpWindow.Next with Window, MaxTries, SeqMod, T0, Extra \\in Nat, an "
+        "unbounded clock and any number of calls, <= 4 commands per call, against a network that may present any "
+        "sequence number at any moment; IndInv => WindowBound /\\ TriesBound /\\ AtMostOnce /\\ ReturnedComplete /\\ "
+        "TimeoutHonest; %d wrong clients refuted" % (len(apa) - 2))
     chk.assumptions.append("datagram lifetime: a reply is never delivered after its sequence number has been re-issued "
                            "to another command (rig's own XXX comment in send_scp_burst); the network of "
                            "harness/env/net.py retires such replies, and ScpDesign_nolifetime.cfg shows the wrong "
